@@ -270,8 +270,8 @@ func c15Worker(sh *explore.Shard) {
 			// every scope assignment for sequences of length <= 2
 			scoped := len(seq) <= 2
 			for _, i := range seq {
-				if i >= 9 && len(seq) == 2 {
-					scoped = false // scope assignments of pairs: over the first 9 shapes
+				if i >= 9 && len(seq) == 2 && sh.Tier != "thorough" {
+					scoped = false // scope assignments of pairs: over the first 9 shapes (quick), all shapes (thorough)
 				}
 			}
 			if scoped {
@@ -309,6 +309,6 @@ func c15Worker(sh *explore.Shard) {
 
 func init() {
 	Registry["C15"] = &Check{Level: "exploration", Worker: c15Worker, QuickBudget: 70 * time.Second, ThoroughBudget: 10 * time.Minute,
-		Rule:        "all configuration texts of <=2 (quick) / <=3 (thorough) entries over 19 entry shapes (refgroup include/exclude/includeRegexp/name for groups g, G, a.b, a.b.c, 'g.' and h; keys without a value, foreign and refgroup; empty, multi-line, '='-bearing and quoted values; look-alike sections refgroupx/xrefgroup/refgroup.include), every assignment of the entries to the local/global/system/command scopes for single entries and for pairs over the first 9 shapes; real git's own `config --list -z` (same flags and environment as git-sizer) parsed NUL-first is the reference for Repository.GetConfig(prefix) on 5 prefixes and, one level up, for the groups the real RefGroupBuilder builds (Categorize on the reference universe, display names). non-trivial = texts with >=2 entries or a non-local scope",
+		Rule:        "all configuration texts of <=2 (quick) / <=3 (thorough) entries over 19 entry shapes (refgroup include/exclude/includeRegexp/name for groups g, G, a.b, a.b.c, 'g.' and h; keys without a value, foreign and refgroup; empty, multi-line, '='-bearing and quoted values; look-alike sections refgroupx/xrefgroup/refgroup.include), every assignment of the entries to the local/global/system/command scopes for single entries and for pairs over the first 9 shapes (thorough: all pairs); real git's own `config --list -z` (same flags and environment as git-sizer) parsed NUL-first is the reference for Repository.GetConfig(prefix) on 5 prefixes and, one level up, for the groups the real RefGroupBuilder builds (Categorize on the reference universe, display names). non-trivial = texts with >=2 entries or a non-local scope",
 		Assumptions: []string{"git 2.39.5 is the reference parser of configuration files", "how a key that has no value is itself presented is not constrained; only that it does not disturb other entries"}}
 }
